@@ -1,8 +1,8 @@
 #!/bin/bash
-# usage: tools/seed_in.sh <PID> <n>   : copy /tmp/wt-<PID>/SEEDED to seeded/<PID>-<n> and verify it there
-i=$1; n=$2; d=/verif/seeded/$i-$n
-mkdir -p $d; cp /tmp/wt-$i/SEEDED/* $d/
-cd /tmp/wt-$i || exit 1
+# usage: tools/seed_in.sh <PID> <n> [suffix] : copy /tmp/wt-<PID><suffix>/SEEDED to seeded/<PID>-<n> and verify it there
+i=$1; n=$2; w=/tmp/wt-$1$3; d=/verif/seeded/$i-$n
+mkdir -p $d; cp $w/SEEDED/* $d/
+cd $w || exit 1
 echo "tests: $(/venv/bin/python -m pytest -q -p no:cacheprovider --continue-on-collection-errors 2>&1 | tail -1)"
-PYTHONPATH=/tmp/wt-$i timeout 300 /venv/bin/python SEEDED/demo.py >/dev/null 2>&1; echo "demo with change: exit $?"
-git stash -q; PYTHONPATH=/tmp/wt-$i timeout 300 /venv/bin/python SEEDED/demo.py >/dev/null 2>&1; echo "demo without change: exit $?"; git stash pop -q
+PYTHONPATH=$w timeout 300 /venv/bin/python SEEDED/demo.py >/dev/null 2>&1; echo "demo with change: exit $?"
+git stash -q; PYTHONPATH=$w timeout 300 /venv/bin/python SEEDED/demo.py >/dev/null 2>&1; echo "demo without change: exit $?"; git stash pop -q
